@@ -140,7 +140,7 @@ def gen_cases(rec, rng, tier):
     for t in common.shard_slice(rxg.enum_trees(6), rec):
         yield {'kind': 'rx', 'cls': 'enum_tree', 'tree': t}
     for bias in (None, 'star', 'unit'):
-        for _ in range(150 if thorough else 40):
+        for _ in range(500 if thorough else 40):
             t = rxg.random_tree(rng, rng.randint(3, 12), rng.choice(['ab', 'abc', 'a']), p_leaf=rng.choice([0.15, 0.3]), bias=bias)
             if rx.size_iter(t) <= 600:
                 yield {'kind': 'rx', 'cls': 'random_%s' % (bias or 'plain'), 'tree': t}
@@ -159,7 +159,7 @@ def gen_cases(rec, rng, tier):
     for (cls, R) in fag.hostile_dfas(rng):
         if len(R[0]) <= 5:
             yield {'kind': 'dfa', 'cls': 'hostile_' + cls, 'ref': R, 'iso': h64(R)}
-    for _ in range(120 if thorough else 30):
+    for _ in range(500 if thorough else 30):
         n = rng.randint(2, 6 if thorough else 5)
         k = rng.randint(1, 3 if n <= 4 else 2)
         R = rng.choice([fag.random_dfa, fag.random_connected_dfa])(rng, n, k)
